@@ -87,6 +87,9 @@ func pathCountFrom(fn *ssa.Function, entry *ssa.BasicBlock, from int, weight fun
 	return pathCountFromStop(fn, entry, from, weight, nil)
 }
 
+// pruneEdge, when set, removes CFG edges from the path count (the branch not taken when a condition is known).
+var pruneEdge func(b *ssa.BasicBlock, succIdx int) bool
+
 func pathCountFromStop(fn *ssa.Function, entry *ssa.BasicBlock, from int, weight func(ssa.Instruction) Interval, stop map[*ssa.BasicBlock]bool) []Exit {
 	n := len(fn.Blocks)
 	// node n is a virtual node: the suffix of the entry block starting at instruction `from`.
@@ -108,11 +111,17 @@ func pathCountFromStop(fn *ssa.Function, entry *ssa.BasicBlock, from int, weight
 		if stop[b] {
 			continue // paths end on entering a stop block
 		}
-		for _, s := range b.Succs {
+		for si, s := range b.Succs {
+			if pruneEdge != nil && pruneEdge(b, si) {
+				continue
+			}
 			edges = append(edges, edge{b.Index, s.Index})
 		}
 	}
-	for _, s := range entry.Succs {
+	for si, s := range entry.Succs {
+		if pruneEdge != nil && pruneEdge(entry, si) {
+			continue
+		}
 		edges = append(edges, edge{n, s.Index})
 	}
 	for b := range stop {
@@ -250,6 +259,54 @@ func CallWeight(pred func(call ssa.CallInstruction, callee *ssa.Function) bool, 
 			}
 			if callee == nil || callee.Blocks == nil || d <= 0 || !inModule(callee) {
 				return Interval{}
+			}
+			// a helper steered by a constant argument (`report(stop bool, …)` called with true): only the branch that
+			// argument selects counts at this call site
+			known := map[*ssa.Parameter]bool{}
+			for i, a := range c.Common().Args {
+				if k, isK := a.(*ssa.Const); isK && k.Value != nil && k.Value.Kind() == constant.Bool && i < len(callee.Params) {
+					known[callee.Params[i]] = constant.BoolVal(k.Value)
+				}
+			}
+			if len(known) > 0 {
+				saved := pruneEdge
+				pruneEdge = func(b *ssa.BasicBlock, succIdx int) bool {
+					if b.Parent() != callee {
+						return saved != nil && saved(b, succIdx)
+					}
+					iff, isIf := b.Instrs[len(b.Instrs)-1].(*ssa.If)
+					if !isIf {
+						return false
+					}
+					cond := iff.Cond
+					neg := false
+					for {
+						u, isU := cond.(*ssa.UnOp)
+						if !isU || u.Op != token.NOT {
+							break
+						}
+						cond, neg = u.X, !neg
+					}
+					p, isP := stripParamSpill(cond).(*ssa.Parameter)
+					if !isP {
+						return false
+					}
+					val, isKnown := known[p]
+					if !isKnown {
+						return false
+					}
+					if neg {
+						val = !val
+					}
+					// successor 0 is taken when the condition is true
+					return (succIdx == 0) != val
+				}
+				t, ok := Total(PathCount(callee, wf(d-1)), false)
+				pruneEdge = saved
+				if !ok {
+					t = Interval{}
+				}
+				return t
 			}
 			if iv, ok := memo[callee]; ok {
 				return iv
